@@ -373,17 +373,54 @@ def quiver(w, ds, conv, e) -> dict:
             "mask": [bool(m) for m in mask.tolist()]}
 
 
+def snapshot(ds: xarray.Dataset, skip=()) -> list:
+    """what the INPUT dataset holds (every variable except `skip`): name, dims, dtype, a digest of the values and of the
+    attributes.  Taken before and after a case; the trace specification demands that they agree (nothing the library is
+    asked may write into the caller's arrays or attributes)."""
+    import hashlib
+    out = []
+    for n in sorted(str(k) for k in ds.variables):
+        if n in skip:
+            continue
+        v = ds[n]
+        try:
+            arr = numpy.ascontiguousarray(numpy.asarray(v.values))
+            dig = hashlib.sha1(arr.tobytes()).hexdigest()[:16]
+        except Exception as ex:      # not readable any more: that, too, is a difference
+            dig = "unreadable-" + type(ex).__name__
+        attrs = hashlib.sha1(repr(sorted((str(k), repr(x)) for k, x in v.attrs.items())).encode()).hexdigest()[:12]
+        out.append([n, [str(d) for d in v.dims], str(v.dtype), dig, attrs])
+    return out
+
+
 def execute_cells(case: dict) -> dict:
     from . import viafile
     w = case["world"]
     held = viafile.hold(w, W.build(w))        # in memory / reopened lazily from a file / dask-backed ... (w["via"])
     try:
         ds = held.ds
+        mutated = {v["name"] for v in w.get("vars", [])} if any(e["a"] == "Mutate" for e in case["events"]) else set()
+        before = snapshot(ds, mutated)
         conv = W.bind(w, ds)
         rec = {"tid": case["tid"], "src": case["src"], "w": tlc_world(w, ds), "events": []}
         rec["w"]["via"] = w.get("via", "memory") + ("+bounds-as-coords" if w.get("bounds_as_coords") else "")
+        second = None
+        nagain = 0
         for e in case["events"]:
-            rec["events"].append(run_event(w, ds, conv, e))
+            if e.get("again"):
+                nagain += 1
+            if e.get("again") and nagain % 2 == 0:
+                # every second repeated question goes to a SECOND dataset object sharing the first one's arrays (a shallow
+                # copy, as isel / assign / select_variables produce), with a convention object of its own
+                if second is None:
+                    ds2 = ds.copy(deep=False)
+                    second = (ds2, W.bind(w, ds2))
+                r = run_event(w, second[0], second[1], e)
+                r["on"] = "shallow-copy"
+                rec["events"].append(r)
+            else:
+                rec["events"].append(run_event(w, ds, conv, e))
+        rec["input"] = {"before": before, "after": snapshot(ds, mutated)}
         return rec
     finally:
         held.close()
